@@ -6,6 +6,9 @@ use crate::{analysis::View, interp::RunOutput, model::*};
 
 pub mod c01;
 pub mod c02;
+pub mod c03;
+pub mod c04;
+pub mod c05;
 
 #[derive(Clone, Debug, serde::Serialize, serde::Deserialize)]
 pub struct Violation {
@@ -46,6 +49,9 @@ pub fn check(case: &Case, out: &RunOutput) -> Verdict {
     match case.family {
         Family::C01 => c01::check(&v, &mut vd),
         Family::C02 => c02::check(&v, &mut vd),
+        Family::C03 => c03::check(&v, &mut vd),
+        Family::C04 => c04::check(&v, &mut vd),
+        Family::C05 => c05::check(&v, &mut vd),
         _ => {}
     }
     vd
